@@ -180,6 +180,7 @@ func runC01(c c01Case) Result {
 			return bad(class, "harness:solver-evaluator-disagree", "solver accepted but evaluator found an unsatisfied constraint")
 		}
 		class += "/" + stratClass(c.Strat, r.HintNonStd)
+		tags = append(tags, "strat:"+stratDetail(c.Strat, r.HintNonStd))
 		if r.Accept && !fullOK {
 			return bad(class, sigAccept("InsertionMbuCircuit(R1CS)", true, verdict, c.Class), "%s class=%s start=%s strat=%+v: compiled system accepted a batch the relation rejects (%s)", dims, c.Class, w.Start, c.Strat, verdict)
 		}
@@ -205,7 +206,17 @@ func stratClass(s *HintStrategy, effective bool) string {
 	if !effective {
 		return "adversarial-noop"
 	}
-	return "adversarial:" + s.NB + "+" + s.IZ
+	return "adversarial"
+}
+
+func stratDetail(s *HintStrategy, effective bool) string {
+	if s.Honest() {
+		return "honest"
+	}
+	if !effective {
+		return "noop"
+	}
+	return s.NB + "+" + s.IZ
 }
 
 func sigAccept(site string, accepted bool, why, class string) string {
